@@ -20,7 +20,7 @@ def exports(prop, tier):
         return []
     if tier == "quick":
         return [("tlc", "MC_Mod2", "MC_Mod2_export.cfg")]
-    return [("tlc", "MC_Mod2", "MC_Mod2_export.cfg"), ("tlc4", "MC_Mod2", "MC_Mod2_export4.cfg")]
+    return [("tlc", "MC_Mod2", "MC_Mod2_export.cfg")] + [("tlc4p%d" % k, "MC_Mod2", "MC_Mod2_export4_p%d.cfg" % k) for k in range(4)]
 
 
 def episodes(prop, tier, seed):
